@@ -12,8 +12,9 @@ import (
 )
 
 type model struct {
-	vals  map[string]uint64
-	cache map[int32]evalRes
+	vals   map[string]uint64
+	cache  map[int32]evalRes
+	strict bool // unknown variables are undetermined (no default value)
 }
 
 type evalRes struct {
@@ -67,7 +68,7 @@ func (m *model) eval0(t *Term) (uint64, bool) {
 		v, ok := m.vals[t.name]
 		if !ok {
 			// inputs that the solver has never seen are unconstrained
-			if len(t.name) > 2 && t.name[0] == 'i' && t.name[1] == 'n' {
+			if !m.strict && len(t.name) > 2 && t.name[0] == 'i' && t.name[1] == 'n' {
 				return 0, true
 			}
 			return 0, false
@@ -382,4 +383,234 @@ func (in *Interp) learnModel() {
 		in.all = in.all[len(in.all)-maxModels:]
 	}
 	in.live = append(in.live, m)
+}
+
+// ---------- pinned variables and byte domains ----------
+//
+// A sound pre-solver in front of z3. For every 8-bit (or Boolean) input
+// variable the interpreter keeps a domain: the set of values not yet excluded
+// by path-condition conjuncts that mention only that variable (besides
+// variables already fixed). A domain of size one pins the variable. A branch
+// condition whose only free variable has domain D is evaluated on every value
+// of D: constant outcome = the branch is decided without the solver (the
+// feasible values are a subset of D, so this is sound); mixed outcome = the
+// solver (or a witness model) decides as before.
+
+type byteDom [4]uint64
+
+func (d *byteDom) has(x int) bool { return d[x>>6]&(1<<uint(x&63)) != 0 }
+func (d *byteDom) del(x int)      { d[x>>6] &^= 1 << uint(x&63) }
+func (d *byteDom) count() int {
+	n := 0
+	for _, w := range d {
+		for ; w != 0; w &= w - 1 {
+			n++
+		}
+	}
+	return n
+}
+
+type termInfo struct {
+	vars []*Term // distinct variables, nil when more than 2 or an uninterpreted function occurs
+	many bool
+	size int
+}
+
+const maxDomTermSize = 400
+
+func (in *Interp) info(t *Term) *termInfo {
+	if in.tinfo == nil {
+		in.tinfo = map[int32]*termInfo{}
+	}
+	if ti, ok := in.tinfo[t.id]; ok {
+		return ti
+	}
+	ti := &termInfo{size: 1}
+	switch t.op {
+	case OConst:
+	case OVar:
+		ti.vars = []*Term{t}
+	case OUF:
+		ti.many = true
+	default:
+		for _, c := range t.children() {
+			ci := in.info(c)
+			ti.size += ci.size
+			if ci.many {
+				ti.many = true
+			}
+			for _, v := range ci.vars {
+				dup := false
+				for _, w := range ti.vars {
+					if w == v {
+						dup = true
+					}
+				}
+				if !dup {
+					ti.vars = append(ti.vars, v)
+				}
+			}
+		}
+		if len(ti.vars) > 3 {
+			ti.many = true
+		}
+		if ti.many {
+			ti.vars = nil
+		}
+		if ti.size > 1<<20 {
+			ti.size = 1 << 20
+		}
+	}
+	in.tinfo[t.id] = ti
+	return ti
+}
+
+// freeVar returns the single unpinned variable of t (nil, true when all are
+// pinned; nil, false when there are several or the term is not analysable).
+func (in *Interp) freeVar(t *Term) (*Term, bool) {
+	ti := in.info(t)
+	if ti.many || ti.size > maxDomTermSize {
+		return nil, false
+	}
+	var free *Term
+	for _, v := range ti.vars {
+		if _, ok := in.pins[v.name]; ok {
+			continue
+		}
+		if free != nil {
+			return nil, false
+		}
+		free = v
+	}
+	return free, true
+}
+
+func domWidth(v *Term) (int, bool) {
+	if v.sort.K == SBool {
+		return 2, true
+	}
+	if v.sort.K == SBV && v.sort.W <= 8 {
+		return 1 << v.sort.W, true
+	}
+	return 0, false
+}
+
+func (in *Interp) domOf(v *Term) *byteDom {
+	if d, ok := in.doms[v.name]; ok {
+		return d
+	}
+	n, _ := domWidth(v)
+	d := &byteDom{}
+	for x := 0; x < n; x++ {
+		d[x>>6] |= 1 << uint(x&63)
+	}
+	if in.doms == nil {
+		in.doms = map[string]*byteDom{}
+	}
+	in.doms[v.name] = d
+	return d
+}
+
+// evalWith evaluates c with the pins plus v = x.
+func (in *Interp) evalWith(c *Term, v *Term, x uint64) (uint64, bool) {
+	in.pins[v.name] = x
+	m := &model{vals: in.pins, cache: map[int32]evalRes{}, strict: true}
+	r, ok := m.eval(c)
+	delete(in.pins, v.name)
+	return r, ok
+}
+
+func (in *Interp) learnPin(c *Term) {
+	if in.noModelCache {
+		return
+	}
+	if c.op == OBAnd {
+		in.learnPin(c.a)
+		in.learnPin(c.b)
+		return
+	}
+	if c.op == OBNot && c.a.op == OBOr { // !(a || b) = !a && !b
+		in.learnPin(in.ts.Not(c.a.a))
+		in.learnPin(in.ts.Not(c.a.b))
+		return
+	}
+	if in.pins == nil {
+		in.pins = map[string]uint64{}
+	}
+	v, ok := in.freeVar(c)
+	if !ok || v == nil {
+		return
+	}
+	n, ok := domWidth(v)
+	if !ok {
+		return
+	}
+	d := in.domOf(v)
+	last := -1
+	cnt := 0
+	for x := 0; x < n; x++ {
+		if !d.has(x) {
+			continue
+		}
+		r, ok := in.evalWith(c, v, uint64(x))
+		if ok && r == 0 {
+			d.del(x)
+			continue
+		}
+		cnt++
+		last = x
+	}
+	if cnt == 1 {
+		in.pins[v.name] = uint64(last)
+		in.pinModel = nil
+	}
+}
+
+// pinEval decides c when its value is the same for every value of its only
+// free variable within that variable's domain.
+func (in *Interp) pinEval(c *Term) (bool, bool) {
+	if in.noModelCache || in.pins == nil {
+		return false, false
+	}
+	v, ok := in.freeVar(c)
+	if !ok {
+		return false, false
+	}
+	if v == nil {
+		if in.pinModel == nil {
+			in.pinModel = &model{vals: in.pins, cache: map[int32]evalRes{}, strict: true}
+		}
+		r, ok := in.pinModel.eval(c)
+		if !ok {
+			return false, false
+		}
+		return r != 0, true
+	}
+	n, ok := domWidth(v)
+	if !ok {
+		return false, false
+	}
+	d := in.domOf(v)
+	seenT, seenF := false, false
+	for x := 0; x < n; x++ {
+		if !d.has(x) {
+			continue
+		}
+		r, ok := in.evalWith(c, v, uint64(x))
+		if !ok {
+			return false, false
+		}
+		if r != 0 {
+			seenT = true
+		} else {
+			seenF = true
+		}
+		if seenT && seenF {
+			return false, false
+		}
+	}
+	if seenT == seenF { // empty domain: leave it to the solver
+		return false, false
+	}
+	return seenT, true
 }
